@@ -161,6 +161,12 @@ func canon(s []span) ([]span, error) {
 			if !equalPrerelease(this.min, this.max) || !equalPrerelease(this.min, next.min) || !equalPrerelease(this.min, next.max) {
 				continue
 			}
+			// Equal tags are no better: a bound with tags admits the
+			// prereleases of its own numbers, and the merged span would
+			// lose the bound in the middle. (The same span twice is one span.)
+			if len(this.min.pre) > 0 && !(this.min.equal(next.min) && this.max.equal(next.max)) {
+				continue
+			}
 			// We'll process the element now, so the outer loop must skip it.
 			merged[j] = true
 			if next.rank == empty {
